@@ -9,8 +9,14 @@ _MISSING = object()
 
 
 class FakeUUID(object):
-    def __init__(self, n):
-        self.hex = '%032x' % n
+    def __init__(self, n, scrambled=False):
+        if scrambled:
+            # like uuid1().hex, whose leading field is the low 32 bits of the timestamp: the textual order of ids says
+            # nothing about the order in which they were made
+            import hashlib
+            self.hex = hashlib.sha256(('uuid-%d' % n).encode()).hexdigest()[:24] + '%08x' % n
+        else:
+            self.hex = '%032x' % n
 
     def __str__(self):
         return self.hex
@@ -19,12 +25,13 @@ class FakeUUID(object):
 class UUIDCounter(object):
     """Stands in for the `uuid` module: uuid1()/uuid4() return a per-run counter."""
 
-    def __init__(self, start=1):
+    def __init__(self, start=1, scrambled=False):
         self.n = start - 1
+        self.scrambled = scrambled
 
     def uuid1(self, *a, **k):
         self.n += 1
-        return FakeUUID(self.n)
+        return FakeUUID(self.n, self.scrambled)
 
     uuid4 = uuid1
 
@@ -145,9 +152,9 @@ def clock_pairs(clock):
 
 
 @contextlib.contextmanager
-def deterministic(tape=None, extra=(), clock=None):
+def deterministic(tape=None, extra=(), clock=None, scrambled_ids=False):
     """Deterministic recording ids, wall clock and global `random` for the duration of one run."""
-    counter = UUIDCounter()
+    counter = UUIDCounter(scrambled=scrambled_ids)
     clock = clock or VClock()
     # process-global generator state must not leak from one run into the next
     from . import values as _values
